@@ -32,7 +32,10 @@ def main():
     os.makedirs(S)
     repo = os.path.join(S, "repo")
     sh(["rsync", "-a", "--exclude", ".git", "/repo/", repo + "/"])
-    env = dict(os.environ, GOFLAGS="-mod=mod", GOPROXY="off")
+    # package ui embeds the unbuilt frontend (ui/app/dist is not in git): supply a placeholder through a go overlay
+    ov = os.path.join(S, "overlay.json")
+    json.dump({"Replace": {os.path.join(repo, "ui/app/dist/index.html"): os.path.join(V, "lib/ui-dist-placeholder.html")}}, open(ov, "w"))
+    env = dict(os.environ, GOFLAGS="-mod=mod -overlay=" + ov, GOPROXY="off")
     env.pop("GOSUMDB", None); env.pop("GOTOOLCHAIN", None)
     patch = os.path.join(outdir, "patch%s.diff" % k)
     demo = os.path.join(outdir, "demo%s_test.go" % k)
